@@ -83,7 +83,7 @@ func parseFuncs(p *Prog) []*ssa.Function {
 }
 
 func checkC16(p *Prog, r *Report) {
-	r.Explain("TOTAL: every index, slice, integer division, type assertion and explicit panic in every UnmarshalText/UnmarshalJSON/UnmarshalBinary/UnmarshalMsg/DecodeMsg/Decode/ParseString method and every *FromString/*FromBytes/Identify* function of the library, and in the library functions they call, is an obligation for the E3 bounds prover; these are entry points, so nothing may be required of their arguments and recover frames give no credit. ENUMRT: for every integer type with MarshalText and UnmarshalText, folding the name tables gives UnmarshalText(MarshalText(c)) == c for every declared constant c with a name of its own. MSGP: for every type with generated MessagePack code the kinds written by EncodeMsg and MarshalMsg equal the kinds read by DecodeMsg and UnmarshalMsg, every conversion between the declared type and the wire type keeps width and signedness, and the constant returned by Msgsize is at least the sum of the sizes of what is written. CODEC: Encode and Decode of the hashes touch the same 8-byte windows in the same word order through a same-order encodeFn/decodeFn pair that is never reassigned. Numeric round trips (bit packing of ExposureBias over all values, floats at textual precision) are run-time arithmetic and are not decided.")
+	r.Explain("TOTAL: every index, slice, integer division, type assertion and explicit panic in every UnmarshalText/UnmarshalJSON/UnmarshalBinary/UnmarshalMsg/DecodeMsg/Decode/ParseString method and every *FromString/*FromBytes/Identify* function of the library, and in the library functions they call, is an obligation for the E3 bounds prover; these are entry points, so nothing may be required of their arguments and recover frames give no credit. ENUMRT: for every integer type with MarshalText and UnmarshalText, folding the name tables gives UnmarshalText(MarshalText(c)) == c for every declared constant c with a name of its own. MSGP: for every type with generated MessagePack code the kinds written by EncodeMsg and MarshalMsg equal the kinds read by DecodeMsg and UnmarshalMsg, every conversion between the declared type and the wire type keeps width and signedness, and the constant returned by Msgsize is at least the sum of the sizes of what is written. OWNBYTES: the byte slice returned by every MarshalText/MarshalJSON/MarshalBinary/MarshalMsg/AppendText method does not alias library package-level storage (a caller appending to or editing the text it was handed would otherwise rewrite the name table that later calls marshal from). CODEC: Encode and Decode of the hashes touch the same 8-byte windows in the same word order through a same-order encodeFn/decodeFn pair that is never reassigned. Numeric round trips (bit packing of ExposureBias over all values, floats at textual precision) are run-time arithmetic and are not decided.")
 	r.Trusted("strconv and msgp primitives are bounds-checked and never panic", "map reads never panic", "strings/bytes Index*, LastIndex*: -1 <= r <= len(s)-1 (<= len(s) for substring searches)")
 	dec := libMethodsNamed(p, decoderMethodNames)
 	pf := parseFuncs(p)
@@ -111,6 +111,8 @@ func checkC16(p *Prog, r *Report) {
 	ruleEnumRT(p, r)
 	ruleMSGP(p, r)
 	ruleCodec(p, r)
+	ruleOwnBytes(p, r)
+	r.Floor("OWNBYTES", 10)
 	r.Floor("ENUMRT", 10)
 	r.Floor("MSGP", 20)
 	r.Floor("CODEC", 2)
@@ -588,5 +590,39 @@ func ruleLenFold(p *Prog, r *Report, totalRule string) {
 	default:
 		n := r.Discharge(totalRule, fnName(f)+" | ", fmt.Sprintf("LENFOLD: every call site passes exactly %d bytes and length propagation over the group table explores all %d paths without a bounds violation", want, paths))
 		r.OK("LENFOLD", key, at, fmt.Sprintf("%d call sites pass exactly %d bytes; %d paths explored, all windows fit; %d per-site obligations discharged by this argument", sites, want, paths, n))
+	}
+}
+
+// ruleOwnBytes: what a marshaler hands out belongs to the caller.
+func ruleOwnBytes(p *Prog, r *Report) {
+	eff := p.Effects()
+	names := map[string]bool{"MarshalText": true, "MarshalJSON": true, "MarshalBinary": true, "MarshalMsg": true, "AppendText": true, "AppendBinary": true}
+	for _, f := range libMethodsNamed(p, names) {
+		res := f.Signature.Results()
+		if res.Len() == 0 {
+			continue
+		}
+		if sl, ok := res.At(0).Type().Underlying().(*types.Slice); !ok || !types.Identical(sl.Elem(), types.Typ[types.Byte]) {
+			continue
+		}
+		key := fnName(f) + " | returned bytes do not alias package-level storage"
+		at := p.posStr(f.Pos())
+		ef := eff.Of(f)
+		if ef == nil {
+			r.Undecided("OWNBYTES", key, at, "no effect summary")
+			continue
+		}
+		var gs []string
+		for g := range ef.RetGlob {
+			if g.G.Pkg != nil && strings.HasPrefix(g.G.Pkg.Pkg.Path(), modPath) {
+				gs = append(gs, globalName(g.G))
+			}
+		}
+		sort.Strings(gs)
+		if len(gs) > 0 {
+			r.Bad("OWNBYTES", key, at, "the returned slice can point into "+strings.Join(gs, ", ")+": a caller that appends to or edits the text changes what later calls marshal (and what UnmarshalText then decodes)")
+		} else {
+			r.OK("OWNBYTES", key, at, "freshly allocated, converted from a string, or the caller's own buffer")
+		}
 	}
 }
